@@ -180,3 +180,72 @@ Proof.
   - match goal with Hg : _ && _ = true |- _ => apply andb_true_iff in Hg as [Hg1 Hg2] end.
     split; now apply gauge_cycleb_sound.
 Qed.
+
+(** * Exponential clauses: the checker implies the Prop reading *)
+Lemma bshift_count_notin d i b : ~ In i (map (fun ic => Z.shiftr (fst ic) d) b) -> bshift_count d i b = 0.
+Proof.
+  unfold bshift_count. induction b as [|ic r IH]; intro H; [reflexivity|].
+  cbn [fold_right map] in *. rewrite IH by (intro Hx; apply H; now right).
+  destruct (Z.eqb_spec (Z.shiftr (fst ic) d) i) as [E|E]; [exfalso; apply H; now left | reflexivity].
+Qed.
+
+Lemma esum_zero (f : epoint -> Z) ds : (forall d, In d ds -> f d = 0) -> esum f ds = 0.
+Proof.
+  unfold esum. induction ds as [|d r IH]; intro H; [reflexivity|].
+  cbn [fold_right]. rewrite (H d (or_introl eq_refl)), IH; [reflexivity|]. intros x Hx. apply H. now right.
+Qed.
+
+Lemma in_dec_Z (k : Z) (l : list Z) : In k l \/ ~ In k l.
+Proof. destruct (in_dec Z.eq_dec k l); auto. Qed.
+
+Lemma side_sound (sel : epoint -> ebuckets) c ds :
+  (let idxs := map fst (sel c) ++ flat_map (fun d => map (fun ic => Z.shiftr (fst ic) (e_scale d - e_scale c)) (sel d)) ds in
+   forallb (fun i => bshift_count 0 i (sel c) =? esum (fun d => bshift_count (e_scale d - e_scale c) i (sel d)) ds) idxs) = true ->
+  forall i, bshift_count 0 i (sel c) = esum (fun d => bshift_count (e_scale d - e_scale c) i (sel d)) ds.
+Proof.
+  cbv zeta. intros H i. rewrite forallb_forall in H.
+  set (idxs := map fst (sel c) ++ flat_map (fun d => map (fun ic => Z.shiftr (fst ic) (e_scale d - e_scale c)) (sel d)) ds) in *.
+  destruct (in_dec_Z i idxs) as [Hin|Hn].
+  - apply Z.eqb_eq. now apply H.
+  - rewrite bshift_count_notin.
+    + symmetry. apply esum_zero. intros d Hd. apply bshift_count_notin. intro Hx. apply Hn.
+      unfold idxs. apply in_or_app. right. apply in_flat_map. now exists d.
+    + intro Hx. apply Hn. unfold idxs. apply in_or_app. left.
+      rewrite in_map_iff in Hx. destruct Hx as (ic & E & Hic). rewrite Z.shiftr_0_r in E. subst i. now apply in_map.
+Qed.
+
+Lemma cum_vs_deltas_sound bk c ds : cum_vs_deltas bk c ds = true -> CumVsDeltas bk c ds.
+Proof.
+  unfold cum_vs_deltas. intro H.
+  apply andb_true_iff in H as [H Hb]. apply andb_true_iff in H as [H Hz]. apply andb_true_iff in H as [H Hs].
+  apply andb_true_iff in H as [Hne Hc].
+  split; [destruct ds; [discriminate Hne | discriminate]|].
+  split; [now apply Z.eqb_eq|]. split; [now apply Z.eqb_eq|]. split; [now apply Z.eqb_eq|].
+  intro E. subst bk. cbn [negb orb] in Hb.
+  apply andb_true_iff in Hb as [Hsc Hsides]. apply andb_true_iff in Hsides as [Hpos Hneg]. split.
+  - intros d Hd. rewrite forallb_forall in Hsc. apply Z.leb_le. now apply Hsc.
+  - intro i. split; [exact (side_sound e_pos c ds Hpos i) | exact (side_sound e_neg c ds Hneg i)].
+Qed.
+
+Theorem expo_run_sound maxsize meas : forall hist prevc seen obs,
+  expo_run maxsize hist prevc seen meas obs = true -> ExpoRun maxsize hist prevc seen meas obs.
+Proof.
+  induction meas as [|m mr IH]; intros hist prevc seen [|[dp cp] or_] H; try discriminate; [exact I|].
+  cbn [expo_run] in H. cbv zeta in H. repeat (apply andb_true_iff in H as [H ?]).
+  cbn [ExpoRun]. cbv zeta.
+  repeat match goal with Hf : forallb _ _ = true |- _ => rewrite forallb_forall in Hf end.
+  split; [|split; [|split; [|split; [|split; [|split]]]]].
+  - intros p Hp Hf. match goal with Hx : forall x, In x dp -> negb _ || epoint_counts_ok x = true |- _ => specialize (Hx p Hp); rewrite Hf in Hx; cbn in Hx; now apply Z.eqb_eq in Hx end.
+  - intros p Hp Hf. match goal with Hx : forall x, In x cp -> negb _ || epoint_counts_ok x = true |- _ => specialize (Hx p Hp); rewrite Hf in Hx; cbn in Hx; now apply Z.eqb_eq in Hx end.
+  - intros p Hp. match goal with Hx : forall x, In x (map e_key dp ++ _) -> _ |- _ => apply Z.eqb_eq; apply Hx; apply in_or_app; left; now apply in_map end.
+  - intros c Hc. apply cum_vs_deltas_sound. match goal with Hx : forall x, In x cp -> cum_vs_deltas _ _ _ = true |- _ => now apply Hx end.
+  - intros d Hd. match goal with Hx : forall x, In x (hist ++ dp) -> existsb _ cp = true |- _ => specialize (Hx d Hd); apply existsb_exists in Hx as (c & Hc & E); exists c; split; [exact Hc | now apply N.eqb_eq] end.
+  - intros c pc Hc Hpc Ek.
+    match goal with Hx : forall x, In x cp -> forallb _ prevc = true |- _ => pose proof (Hx c Hc) as Hy end.
+    rewrite forallb_forall in Hy. specialize (Hy pc Hpc).
+    apply orb_true_iff in Hy as [Hk|Hk]; [apply negb_true_iff in Hk; apply N.eqb_neq in Hk; congruence | now apply Z.leb_le].
+  - now apply IH.
+Qed.
+
+Theorem expo_ok_sound maxsize meas obs : expo_ok maxsize meas obs = true -> ExpoRun maxsize [] [] [] meas obs.
+Proof. apply expo_run_sound. Qed.
